@@ -249,6 +249,6 @@ Proof. vm_compute. repeat split. eexists. split; reflexivity. Qed.
 
 (* a transitive chain over three different prefixes satisfying the hypothesis of C14X_lt_trans_partial *)
 Example C14X_ex_chain :
-  Z.min (prefix (PX 1 0 0)) (prefix (PX 3 0 (-24))) <= prefix (PX 2 0 (-3)) /\
+  Z.min (prefix (PX 1 0 (-24))) (prefix (PX 3 0 0)) <= prefix (PX 2 0 (-3)) /\
   pcmp OLt (PX 1 0 (-24)) (PX 2 0 (-3)) = true /\ pcmp OLt (PX 2 0 (-3)) (PX 3 0 0) = true /\ pcmp OLt (PX 1 0 (-24)) (PX 3 0 0) = true.
 Proof. vm_compute. repeat split; discriminate. Qed.
